@@ -16,7 +16,7 @@ type Defgeneric struct {
 func defGeneric(args slip.List, p *slip.Printer) Node {
 	var dg Defgeneric
 	sym, _ := args[0].(slip.Symbol)
-	dg.name = &Leaf{text: []byte(sym)}
+	dg.name = &Leaf{text: sym.Readably(nil, p)}
 	args = args[1:]
 	dg.ll = argsFromList(args[0], p)
 	args = args[1:]
